@@ -317,11 +317,22 @@ func (h *Hub) coordinateConnectionInitations(ski string, entry *api.MdnsEntry) {
 // invoked by coordinateConnectionInitations either with a delay or directly
 // when initating a pairing process
 func (h *Hub) prepareConnectionInitation(ski string, counter int, entry *api.MdnsEntry) {
+	// the attempt is marked as running until it is finished, otherwise a second
+	// connection to the same service could be initiated in parallel
+	recheck := h.processConnectionInitation(ski, counter, entry)
+
 	h.setConnectionAttemptRunning(ski, false)
 
+	if recheck {
+		h.checkAutoReannounce()
+	}
+}
+
+// returns true if it should be checked wether a new connection attempt is needed
+func (h *Hub) processConnectionInitation(ski string, counter int, entry *api.MdnsEntry) bool {
 	// a delayed connection attempt is irrelevant once the hub is shut down
 	if h.checkIsShutdown() {
-		return
+		return false
 	}
 
 	// check if the current counter is still the same, otherwise this counter is irrelevant
@@ -329,20 +340,19 @@ func (h *Hub) prepareConnectionInitation(ski string, counter int, entry *api.Mdn
 	if !exists || currentCounter != counter {
 		// this attempt blocked newer attempts while it was waiting, so make sure
 		// a still missing connection gets a new attempt
-		h.checkAutoReannounce()
-		return
+		return true
 	}
 
 	// connection attempt is not relevant if the device is no longer paired
 	// or it is not queued for pairing
 	pairingState := h.ServiceForSKI(ski).ConnectionStateDetail().State()
 	if !h.IsRemoteServiceForSKIPaired(ski) && pairingState != api.ConnectionStateQueued {
-		return
+		return false
 	}
 
 	// connection attempt is not relevant if the device is already connected
 	if h.isSkiConnected(ski) {
-		return
+		return false
 	}
 
 	// now initiate the connection
@@ -350,8 +360,10 @@ func (h *Hub) prepareConnectionInitation(ski string, counter int, entry *api.Mdn
 	service := h.ServiceForSKI(ski)
 
 	if success := h.initateConnection(service, entry); !success {
-		h.checkAutoReannounce()
+		return true
 	}
+
+	return false
 }
 
 // attempt to establish a connection to a remote service
